@@ -31,20 +31,27 @@ pub(crate) fn any_entry(id: KeyId) -> AEntry {
     kani::assume(e.0 <= (1u64 << 40));
     AEntry { present: kani::any(), value: kani::any(), id, expiry: if has_exp { Some(e) } else { None }, soft_deleted: kani::any() }
 }
-/// arbitrary store over the 3-key pool (keys 101..103 carrying ids 1..3), arbitrary slot rotation
-pub(crate) fn vk_any_store(stats: Arc<ConcurrentStatsCounter>) -> (Arc<Store<u64, u64>>, [AEntry; POOL]) {
-    let s = vk_store(stats);
-    let a = [any_entry(1), any_entry(2), any_entry(3)];
-    let rot: usize = kani::any();
-    kani::assume(rot < POOL);
+/// entry with CONCRETE shape (present / with TTL) and symbolic attributes
+pub(crate) fn shaped_entry(id: KeyId, present: bool, with_ttl: bool) -> AEntry {
+    let e = (kani::any::<u64>(), sup::any_nanos());
+    kani::assume(e.0 <= (1u64 << 40));
+    AEntry { present, value: kani::any(), id, expiry: if with_ttl { Some(e) } else { None }, soft_deleted: if present { kani::any() } else { false } }
+}
+/// quick tier: key 101 held with TTL, key 102 held without TTL, key 103 absent (concrete occupancy);
+/// thorough tier: arbitrary occupancy
+pub(crate) fn vk_entries() -> [AEntry; POOL] {
+    if sup::cfg::TIER_THOROUGH { [any_entry(1), any_entry(2), any_entry(3)] }
+    else { [shaped_entry(1, true, true), shaped_entry(2, true, false), shaped_entry(3, false, false)] }
+}
+/// place the described entries (keys 101..103 carrying ids 1..3) into a store built from concrete parts
+pub(crate) fn vk_place_entries(s: &Store<u64, u64>, a: &[AEntry; POOL]) {
     let mut i = 0;
     while i < POOL {
         if a[i].present {
-            vk_place(&s, (i + rot) % POOL, key_of(i), svk::vk_stored(a[i].value, a[i].id, a[i].expiry.map(|e| sup::time(e.0, e.1)), a[i].soft_deleted));
+            vk_place(s, i, key_of(i), svk::vk_stored(a[i].value, a[i].id, a[i].expiry.map(|e| sup::time(e.0, e.1)), a[i].soft_deleted));
         }
         i += 1;
     }
-    (s, a)
 }
 pub(crate) fn le(a: (u64, u32), b: (u64, u32)) -> bool { a.0 < b.0 || (a.0 == b.0 && a.1 <= b.1) }
 pub(crate) fn readable(e: &AEntry, now: (u64, u32)) -> bool {
@@ -64,7 +71,9 @@ pub(crate) fn check_entry(s: &Store<u64, u64>, i: usize, e: &AEntry) -> bool {
 #[kani::unwind(6)]
 fn c02_store_reads_agree_with_abstract_map() {
     let stats = stk::vk_fresh();
-    let (s, a) = vk_any_store(stats.clone());
+    let a = vk_entries();
+    let s = vk_store(stats.clone());
+    vk_place_entries(&s, &a);
     let now = (kani::any::<u64>(), sup::any_nanos());
     kani::assume(now.0 <= (1u64 << 40));
     sup::set_now(now.0, now.1);
@@ -116,7 +125,9 @@ fn c02_store_reads_agree_with_abstract_map() {
 #[kani::unwind(6)]
 fn c02_store_write_step() {
     let stats = stk::vk_fresh();
-    let (s, a) = vk_any_store(stats.clone());
+    let a = vk_entries();
+    let s = vk_store(stats.clone());
+    vk_place_entries(&s, &a);
     let now = (kani::any::<u64>(), sup::any_nanos());
     kani::assume(now.0 <= (1u64 << 40));
     sup::set_now(now.0, now.1);
